@@ -65,6 +65,9 @@ type options struct {
 	mergeTargets map[*cfgDynamic]*Config
 
 	ignoreCommas bool
+
+	// nesting depth of the value currently being normalized by Merge
+	normalizeDepth int
 }
 
 type valueCache map[string]spliceValue
